@@ -121,6 +121,7 @@ type Task struct {
 	pval     any
 	once     sync.Once
 	panicNil bool          // Start() does panic(nil)
+	goexit   bool          // Start() ends its goroutine with runtime.Goexit (neither returns nor panics)
 	nilSlot  int           // index of the reserved S/F place of an accepted nil task
 	isNil    bool          // the value handed to PushTask is the nil Task; this record only carries its id
 	kind     string        // dynamic type of the value handed to PushTask (kinds.go)
@@ -405,6 +406,9 @@ func (t *Task) startWith(body func()) {
 		r.nF[t.ID]++
 		r.cur--
 		r.mu.Unlock()
+	}
+	if t.goexit {
+		runtime.Goexit() // F was recorded: the task is over, but its goroutine ends here (t.FailNow() in a task does this)
 	}
 	if t.panicNil {
 		var none any
